@@ -761,6 +761,60 @@ Proof.
   - apply (IH _ i t rest mode key val); assumption.
 Qed.
 
+(* =====================  5b. erased keys  ===================== *)
+(* ---- erased keys: a key a run erases (and never writes) is absent from its final state, hence from whatever is
+   seeded from that final state (copy-back REPLACES the selected state by the final state) ---- *)
+Lemma gs_step_erases : forall i t m key val, ~ In key (gs_keys (fst (gs_step i t m (3, key, val)))).
+Proof. intros i t m key val H. unfold gs_step in H. simpl in H. apply gs_keys_erase in H. tauto. Qed.
+
+Lemma gs_steps_absent_stays : forall i t os m k (W : list Z),
+  (forall mode key val, In (mode, key, val) os -> (mode =? 0) || (mode =? 2) = true -> In key W) -> ~ In k W ->
+  ~ In k (gs_keys m) -> ~ In k (gs_keys (fst (gs_steps i t m os))).
+Proof.
+  intros i t os m k W HW Hk Hm H. apply (gs_steps_keys i t os m k W HW) in H. tauto.
+Qed.
+
+Lemma gs_steps_erased : forall i t os m k val (W : list Z),
+  In (3, k, val) os ->
+  (forall mode key v, In (mode, key, v) os -> (mode =? 0) || (mode =? 2) = true -> In key W) -> ~ In k W ->
+  ~ In k (gs_keys (fst (gs_steps i t m os))).
+Proof.
+  intros i t os. induction os as [|[[mo ke] va] r IH]; intros m k val W Hin HW Hk; [destruct Hin|].
+  rewrite gs_steps_fst. destruct Hin as [Hin|Hin].
+  - inversion Hin; subst. apply gs_steps_absent_stays with (W := W); [|assumption|apply gs_step_erases].
+    intros mode key v H2. apply (HW mode key v). right. assumption.
+  - apply IH with (val := val) (W := W); [assumption| |assumption].
+    intros mode key v H2. apply (HW mode key v). right. assumption.
+Qed.
+
+Lemma weave_absent_stays : forall sec tr st k,
+  ~ In k (written_keys sec) -> ~ In k (gs_keys (w_gs st)) -> ~ In k (gs_keys (w_gs (snd (weave sec tr st)))).
+Proof. intros sec tr st k Hw Hs H. apply weave_keys_sound in H. tauto. Qed.
+
+Lemma weave_erased_absent : forall sec tr st i t rest k val,
+  In (12 :: i :: t :: rest) tr -> In (3, k, val) (gsops_of sec i) -> ~ In k (written_keys sec) ->
+  ~ In k (gs_keys (w_gs (snd (weave sec tr st)))).
+Proof.
+  intros sec tr. induction tr as [|l r IH]; intros st i t rest k val Hin Hop Hw; [destruct Hin|].
+  rewrite weave_step. destruct Hin as [->|Hin].
+  - simpl is_run_line. apply weave_absent_stays; [assumption|].
+    rewrite user_run_gs. apply gs_steps_erased with (val := val) (W := written_keys sec); [assumption| |assumption].
+    intros mode key v H2 Hm. apply (gsops_written sec i mode key v); assumption.
+  - apply (IH _ i t rest k val); assumption.
+Qed.
+
+(* the chain: run 2 is seeded with run 1's final state (what copy_from must produce): the key run 1 erased is not in
+   run 2's seed, and if run 2 does not write it either, not in run 2's final state *)
+Lemma erased_key_gone_l : forall sec1 tr1 seed i t rest k val,
+  In (12 :: i :: t :: rest) tr1 -> In (3, k, val) (gsops_of sec1 i) -> ~ In k (written_keys sec1) ->
+  ~ In k (gs_keys (final_gs sec1 tr1 seed)) /\
+  (forall sec2 tr2, ~ In k (written_keys sec2) -> ~ In k (gs_keys (final_gs sec2 tr2 (final_gs sec1 tr1 seed)))).
+Proof.
+  intros sec1 tr1 seed i t rest k val Hin Hop Hw.
+  assert (H1 : ~ In k (gs_keys (final_gs sec1 tr1 seed))) by (unfold final_gs; apply (weave_erased_absent sec1 tr1 _ i t rest k val); assumption).
+  split; [exact H1|]. intros sec2 tr2 Hw2. unfold final_gs at 1. apply weave_absent_stays; assumption.
+Qed.
+
 (* =====================  6. the statements of Props/C07.v  ===================== *)
 Lemma run_deterministic_full : forall wall1 wall2 cfgs beh start end_ fuel,
   x_g (xrun wall1 cfgs beh start end_ fuel) = x_g (xrun wall2 cfgs beh start end_ fuel) /\
